@@ -7,6 +7,8 @@ pub mod monitor;
 pub mod registry;
 pub mod spin_lock;
 pub mod state_hash_table;
+#[cfg(rescrv_blue_verif)]
+pub mod verif;
 pub mod wait_list;
 pub mod work_coalescing_queue;
 
